@@ -385,6 +385,42 @@ theorem recovered_eq_live (progs : List ThreadProgram) (sched : List Nat)
   obtain ⟨_, _, hex, hget⟩ := reads_congr heq hc k
   exact ⟨hget, by simp only [seqOp, seqOpAux, stepOp, hex]⟩
 
+/-- FULL STRENGTH, a crash at ANY moment, not only after quiescence: in every state reachable by
+    durable writers of plain / graph / table / `emb:` keys (any values) and readers - any number of
+    threads, any programs, any schedule, stopped anywhere - the slabs rebuilt from the log are the
+    live slabs, or exactly one thread is inside a durable write (it holds the log mutex) and they
+    are the live slabs with THAT write run to its end (`finishOp`: its remaining atomic steps with
+    nobody in between).  So recovery never yields a state no reader could have seen or been about
+    to see: a logged write is applied whole, never half (index without metadata, metadata of one
+    put with the vector of another). -/
+theorem crash_at_any_step_recovers_live_or_inflight_write_completed (progs : List ThreadProgram)
+    (sched : List Nat) (h : ∀ p ∈ progs, ∀ op ∈ p, op.durableOrRead = true) :
+    let sys := runSched true progs sched
+    SlabsEq (recover sys.store.wal) sys.store ∨
+    ∃ (i : Nat) (th : Thread) (op : Op) (rest : List Op),
+      sys.threads[i]? = some th ∧ th.ops = op :: rest ∧ op.takesLock = true ∧ th.pc ≠ .start ∧
+      (∀ (j : Nat) (thj : Thread), sys.threads[j]? = some thj → j ≠ i → thj.inCS = false) ∧
+      SlabsEq (recover sys.store.wal) (finishOp sys.store op th.pc) := by
+  intro sys
+  have inv : RInv sys := (RInv.init progs h).run sched
+  rcases inv.cs with ⟨_, heq⟩ | hcs
+  · exact Or.inl heq
+  · exact Or.inr hcs
+
+/-- non-vacuity: the run of the `emb:` example stopped after 11 picks - thread 1 is inside its
+    `put_durable emb:1` (logged, index and slab written, metadata not yet): the live store still shows
+    the old metadata, the recovered store the new value, which is the live store once thread 1 has
+    taken its last step -/
+example :
+    let sys := runSched true [[.putD kE1 ⟨1, .good 1⟩, .delD kE1, .putD kE1 ⟨3, .none⟩], [.putD kE1 ⟨2, .bad 2⟩, .get kE1],
+        [.putD kP1 ⟨4, .good 4⟩, .scan []]] [0, 1, 2, 0, 0, 0, 1, 1, 1]
+    (sys.threads.map (·.pc)) = [.start, .putEmbAfterVector, .start] ∧
+    aget sys.store.md kE1 = some ⟨1, .good 1⟩ ∧
+    aget (recover sys.store.wal).md kE1 = some ⟨2, .bad 2⟩ ∧
+    aget (finishOp sys.store (.putD kE1 ⟨2, .bad 2⟩) .putEmbAfterVector).md kE1 = some ⟨2, .bad 2⟩ ∧
+    (recover sys.store.wal).slab = (finishOp sys.store (.putD kE1 ⟨2, .bad 2⟩) .putEmbAfterVector).slab := by
+  decide
+
 /-- non-vacuity: the hypotheses hold of the race the statement is about — `delete_durable user:1`
     of a key that is absent at the start is granted while `put_durable user:1` is between its log
     step and its apply (it does not move), then logs its `MetadataDelete` AFTER the set and removes
